@@ -172,6 +172,18 @@ impl Recv {
         // out of `ReservedRemote`. As a result, `recv_open` reports each of them
         // as initial. Only account for the stream once.
         if is_initial && !stream.is_counted {
+            // Reserved (promised) streams do not count against the concurrency
+            // limit, so several promises can have been accepted against the
+            // same free slot. The limit is enforced when the HEADERS open the
+            // stream: refuse it instead of exceeding the advertised limit.
+            if !counts.can_inc_num_recv_streams() {
+                tracing::debug!(
+                    "stream error REFUSED_STREAM -- recv_headers: max concurrent streams reached; stream={:?}",
+                    stream.id
+                );
+                return Err(Error::library_reset(stream.id, Reason::REFUSED_STREAM).into());
+            }
+
             // TODO: be smarter about this logic
             if frame.stream_id() > self.last_processed_id {
                 self.last_processed_id = frame.stream_id();
